@@ -434,3 +434,41 @@ Proof.
   intros H. unfold pub_monitor. rewrite prun_calls_ok. simpl.
   unfold prun in H. rewrite prun_obs in H. exact H.
 Qed.
+
+(** ** the delay layer over a batch: atomic *)
+Lemma delay_layer_rejects g a st msgs e :
+  first_reject g a msgs = Some e -> stack_reject (PDelay g a :: st) msgs = Some e.
+Proof.
+  intros H. simpl. pose proof (delay_batch_spec g a 0%N msgs) as [Hs _].
+  destruct (delay_batch g a 0%N msgs) as [[ev m'] r]. unfold db_res in Hs. simpl in Hs.
+  rewrite Hs, H. reflexivity.
+Qed.
+
+Lemma delay_layer_passes g a st msgs :
+  first_reject g a msgs = None ->
+  stack_reject (PDelay g a :: st) msgs = stack_reject st (map (fun m => apply_decision (decide g a m) m) msgs).
+Proof.
+  intros H. simpl. pose proof (delay_batch_spec g a 0%N msgs) as [Hs Hm].
+  destruct (delay_batch g a 0%N msgs) as [[ev m'] r]. unfold db_res, db_msgs in *. simpl in *.
+  rewrite Hs, H. rewrite Hm by exact H. reflexivity.
+Qed.
+
+(** no generator, no AllowNoDelay: one message without any delay and nothing is published *)
+Lemma no_delay_rejected a msgs m :
+  a = false -> In m msgs -> nonempty (pm_for m) = false -> pm_ctx m = None ->
+  first_reject false a msgs = Some e_nodelay.
+Proof.
+  intros -> Hin Hf Hc. induction msgs as [|x r IH]; [contradiction|]. simpl.
+  unfold decide at 1. destruct (nonempty (pm_for x)) eqn:Ex.
+  - destruct Hin as [->|Hin]; [congruence|]. apply IH. exact Hin.
+  - destruct (pm_ctx x) eqn:Cx.
+    + destruct Hin as [->|Hin]; [congruence|]. apply IH. exact Hin.
+    + reflexivity.
+Qed.
+
+(** AllowNoDelay without a generator never rejects; a message without a delay goes out bare *)
+Lemma allow_never_rejects msgs : first_reject false true msgs = None.
+Proof.
+  induction msgs as [|x r IH]; [reflexivity|]. simpl. unfold decide at 1.
+  destruct (nonempty (pm_for x)); [exact IH|]. destruct (pm_ctx x); exact IH.
+Qed.
